@@ -26,7 +26,13 @@ ASSUMPTIONS = ["re-registering an already registered name is not exercised",
                "the statement"]
 REQUIRED = ["waiters_fired", "fired_on_later_register", "fired_immediately",
             "chained_register", "callback_failed", "ltd_wired", "ltd_events",
-            "lifecycles", "up_deferred", "quits"]
+            "lifecycles", "up_deferred", "quits",
+            "registrations_by_class_or_core_name", "rendezvous_histories_that_go_up",
+            "callbacks_that_are_bound_methods", "declarations_using_the_defaults",
+            "waiters_declared_twice", "dependencies_named_by_a_bare_string",
+            "listen_args_used", "sinks_without_the_notification_method",
+            "deferrals_through_the_event", "quit_from_inside_a_handler",
+            "lifecycle_handlers_that_raise"]
 TIMEOUT = {"quick": 600, "thorough": 5400}
 
 # (names with underscores, one of them extending another name: handler names
@@ -81,6 +87,7 @@ class Rdv (object):
     self.R = R
     self.mon = Mon(rep, case)
     self.rep = rep
+    self.case = case
     self.core = new_core()
     self.waiters = []
     self.sinks = []
@@ -106,7 +113,9 @@ class Rdv (object):
     self.reg_clock = 0
 
   def have (self, n):
-    return self.core.hasComponent(n)
+    # (the monitor's own record of what was registered - asking the core
+    #  would be asking the code under test)
+    return n in self.registered or n == "core"
 
   def api (self, what, f):
     self.depth += 1
@@ -128,6 +137,7 @@ class Rdv (object):
                       "callback not run" % (after, w["id"], w["deps"]))
         w["fired"] = -1000   # report once
     for s in self.sinks:
+      if s["met"] is None: continue
       if s["met"] == 0 and all(self.have(d) for d in s["deps"]):
         self.mon.fire("dependency wiring not done when ready",
                       "after %s: sink deps=%r all registered but "
@@ -141,12 +151,34 @@ class Rdv (object):
       self.rep.count("falsy_components")
     else:
       obj = self.Comp() if kind == "events" else self.Plain()
+    variant = (len(self.registered) + len(name) + self.case.get("rv", 0)) % 4
+    if variant in (1, 2, 3):
+      # register(obj) names the component after the object's _core_name or
+      # its class; registerNew(cls) creates the object itself
+      base = type(obj)
+      ns = {"_core_name": name} if variant == 1 else {}
+      cls = type(name, (base,), ns)
+      obj = cls()
+      self.rep.count("registrations_by_class_or_core_name")
     self.registered[name] = obj
     self.reg_clock += 1
     if self.depth > 0:
       self.rep.count("chained_register"); self.flags.add("nt")
-    self.api("register", lambda: self.core.register(name, obj))
-    if not self.have(name):
+    if variant == 3:
+      # (registerNew creates its own instance; what it registered is what it
+      #  returns - until then the name stands for "being registered")
+      made = []
+      self.registered[name] = None
+      self.api("registerNew", lambda: made.append(self.core.registerNew(cls)))
+      obj = made[0] if made else None
+      self.registered[name] = obj
+      if obj is None or not isinstance(obj, cls):
+        self.mon.fire("registerNew did not return the new component", repr(obj))
+    elif variant in (1, 2):
+      self.api("register", lambda: self.core.register(obj))
+    else:
+      self.api("register", lambda: self.core.register(name, obj))
+    if not self.core.hasComponent(name):
       self.mon.fire("registered component not visible", name)
     try:
       if getattr(self.core, name) is not obj:
@@ -158,8 +190,10 @@ class Rdv (object):
     w = dict(id=len(self.waiters), deps=list(deps), fired=0, declared=False,
              clock=self.reg_clock)
     self.waiters.append(w)
+    noargs = (w["id"] % 5 == 3)
+    w["decls"] = 1
     def cb (*a, **k):
-      if a != (w["id"],) or k != {"z": 1}:
+      if (a, k) != (((), {}) if noargs else ((w["id"],), {"z": 1})):
         self.mon.fire("callback arguments", "%r %r" % (a, k))
       missing = [d for d in w["deps"] if not self.have(d)]
       if missing:
@@ -167,10 +201,12 @@ class Rdv (object):
                       "waiter %d deps=%r ran while %r missing" %
                       (w["id"], w["deps"], missing))
       w["fired"] += 1
-      if w["fired"] > 1:
-        self.mon.fire("callback fired twice", "waiter %d deps=%r" %
-                      (w["id"], w["deps"]))
+      if w["fired"] > w["decls"]:
+        self.mon.fire("callback fired twice", "waiter %d deps=%r (declared %d "
+                      "times, ran %d times)" % (w["id"], w["deps"], w["decls"], w["fired"]))
         return      # do not re-run the behaviour (would recurse without bound)
+      if w["fired"] > 1:
+        return      # a second declaration of the same waiter: counted, not re-scripted
       self.rep.count("waiters_fired")
       if self.reg_clock > w["clock"]:
         self.rep.count("fired_on_later_register"); self.flags.add("nt")
@@ -194,8 +230,15 @@ class Rdv (object):
     w["declared"] = True
     # the callback as a plain function, a functools.partial, or an object with
     # __call__ (the latter two have no __name__ and no source location)
-    shape = w["id"] % 4
+    shape = w["id"] % 6
     call = cb; kwn = {}
+    if shape == 4:
+      # a bound method, named by the core after its object's class
+      class Owner (object):
+        def when_ready (self_, *a, **k): return cb(*a, **k)
+      w["owner"] = Owner()
+      call = w["owner"].when_ready
+      self.rep.count("callbacks_that_are_bound_methods")
     if shape == 1:
       import functools
       call = functools.partial(cb); kwn = dict(name="partial%d" % w["id"])
@@ -205,15 +248,54 @@ class Rdv (object):
         def __call__ (self_, *a, **k): return cb(*a, **k)
       call = Callable(); kwn = dict(name="callable%d" % w["id"])
       self.rep.count("callbacks_without_source")
-    self.api("call_when_ready",
-             lambda: self.core.call_when_ready(call, d, args=(w["id"],),
-                                               kw={"z": 1}, **kwn))
+    def declare ():
+      if noargs:
+        # the defaults: no arguments for the callback; with nothing to wait
+        # for, no component list either
+        self.rep.count("declarations_using_the_defaults")
+        if not deps and w["id"] % 2: self.core.call_when_ready(call, **kwn)
+        else: self.core.call_when_ready(call, d, **kwn)
+      else:
+        self.core.call_when_ready(call, d, args=(w["id"],), kw={"z": 1}, **kwn)
+    w["callable"] = call
+    w["shape"] = shape
+    self.api("call_when_ready", declare)
     # the caller goes on using its list for something else: what the waiter
     # waits for is what was named at the time of the call
     if isinstance(d, list):
       if w["id"] % 2: d.append("never_registered_%d" % w["id"])
       else: del d[:]
       self.rep.count("dependency_lists_mutated_after_declaring")
+
+  def do_redeclare (self, idx):
+    """The very same waiter (same callable, components, arguments) declared a
+    second time: two declarations, two runs."""
+    if not self.waiters: return
+    w = self.waiters[idx % len(self.waiters)]
+    if w["decls"] > 1 or w["fired"] < 0: return
+    if any(isinstance(x, str) and x.startswith("never_registered") for x in w["deps"]):
+      return
+    w["decls"] += 1
+    self.rep.count("waiters_declared_twice")
+    # (the dependency list the first call used was mutated afterwards by the
+    #  harness; rebuild what it named)
+    deps = list(w["deps"])
+    call_args = {}
+    try:
+      self._redeclare(w, deps)
+    except Exception:
+      pass
+
+  def _redeclare (self, w, deps):
+    def again ():
+      kwn = {}
+      if w["shape"] in (1, 2): kwn = dict(name="again%d" % w["id"])
+      call = w.get("callable")
+      if w["id"] % 5 == 3:
+        self.core.call_when_ready(call, deps, **kwn)
+      else:
+        self.core.call_when_ready(call, deps, args=(w["id"],), kw={"z": 1}, **kwn)
+    self.api("call_when_ready", again)
 
   def do_ltd (self, comps, extra, attrs):
     rdv = self
@@ -224,8 +306,6 @@ class Rdv (object):
       def mk (c):
         def h (self_, event):
           s["calls"][c] = s["calls"].get(c, 0) + 1
-          if s["met"] < 1 and s["met"] > -1000:
-            pass
         return h
       ns["_handle_%s_Ev" % c] = mk(c)
     def met (self_):
@@ -238,7 +318,14 @@ class Rdv (object):
         rdv.mon.fire("dependencies-met called twice", repr(s["deps"]))
       rdv.rep.count("ltd_wired")
       if rdv.reg_clock > s["clock"]: rdv.flags.add("nt")
-    ns["_all_dependencies_met"] = met
+    variant = len(self.sinks) % 5
+    if variant != 4:
+      ns["_all_dependencies_met"] = met
+    else:
+      # a sink without the notification method: the wiring is judged by the
+      # events alone
+      s["met"] = None
+      self.rep.count("sinks_without_the_notification_method")
     Sink = type("Sink%d" % len(self.sinks), (object,), ns)
     sink = Sink()
     s["sink"] = sink
@@ -246,6 +333,16 @@ class Rdv (object):
     s["clock"] = self.reg_clock
     kw = {}
     if extra: kw["components"] = list(extra)
+    if len(extra) == 1 and variant in (1, 3):
+      kw["components"] = extra[0]          # a single name as a bare string
+      self.rep.count("dependencies_named_by_a_bare_string")
+    if variant == 2 and comps:
+      # per-component listen arguments (the prefix must survive them)
+      kw["listen_args"] = {comps[0]: {"priority": 5}}
+      self.rep.count("listen_args_used")
+    if variant == 3:
+      kw["short_attrs"] = True
+      s["short"] = True
     if not attrs: kw["attrs"] = False
     self.api("listen_to_dependencies",
              lambda: self.core.listen_to_dependencies(sink, **kw))
@@ -259,15 +356,18 @@ class Rdv (object):
     except Exception as e:
       self.mon.fire("emit raises", repr(e))
     for s, b in before:
-      wired = s["met"] >= 1
+      if s["met"] is None:
+        wired = all(self.have(d) for d in s["deps"])
+      else:
+        wired = s["met"] >= 1
       for c in s["comps"]:
         delta = s["calls"].get(c, 0) - b.get(c, 0)
         exp = 1 if (wired and c == name) else 0
         if delta != exp:
           self.mon.fire("dependency listener invoked %s" %
                         ("more than once" if delta > exp else "not at all"),
-                        "event on %s: sink handler for %s ran %d times, "
-                        "expected %d (wired=%r)" % (name, c, delta, exp, wired))
+                        "event on %s: sink %d (deps %r) handler for %s ran %d times, "
+                        "expected %d (wired=%r)" % (name, self.sinks.index(s), s["deps"], c, delta, exp, wired))
         elif exp:
           self.rep.count("ltd_events")
 
@@ -277,15 +377,16 @@ class Rdv (object):
     for w in self.waiters:
       ready = all(self.have(d) for d in w["deps"])
       if w["fired"] in (-1000,): continue
-      if ready and w["fired"] != 1:
+      if ready and w["fired"] != w.get("decls", 1):
         self.mon.fire("waiter fired %d times at end" % w["fired"],
                       "waiter %d deps=%r" % (w["id"], w["deps"]))
       if not ready and w["fired"] != 0:
         self.mon.fire("waiter fired without dependencies", repr(w))
     for s in self.sinks:
-      if s["met"] >= 1 and s["attrs"]:
+      if s["met"] is not None and s["met"] >= 1 and s["attrs"]:
         for c in s["deps"]:
-          if getattr(s["sink"], "_%s_" % c, None) is not self.registered.get(c):
+          an = c if s.get("short") else "_%s_" % c
+          if getattr(s["sink"], an, None) is not self.registered.get(c):
             self.mon.fire("dependency attribute not set", c)
     dispose_core(self.core)
 
@@ -297,6 +398,13 @@ def run_rdv (case, rep):
     elif op[0] == "cwr": r.do_cwr(op[1], op[2], op[3])
     elif op[0] == "ltd": r.do_ltd(op[1], op[2], op[3])
     elif op[0] == "emit": r.do_emit(op[1])
+    elif op[0] == "redeclare": r.do_redeclare(op[1])
+    elif op[0] == "goup" and not getattr(r, "up", False):
+      # the system comes up in the middle of the history: components keep
+      # registering, interest keeps being declared
+      r.up = True
+      rep.count("rendezvous_histories_that_go_up")
+      r.api("goUp", r.core.goUp)
   r.finish()
   return bool(r.flags)
 
@@ -340,10 +448,24 @@ def run_life (case, rep):
   def on (evname):
     def h (e):
       with lock: log.append(evname)
+      if evname in ("GoingDown", "Down", "Up"):
+        for act in case.get("on_" + evname, []):
+          if act[0] == "quit":
+            # a handler asks for shutdown itself (again)
+            rep.count("quit_from_inside_a_handler")
+            core.quit()
+          elif act[0] == "raise":
+            rep.count("lifecycle_handlers_that_raise")
+            raise RuntimeError("scripted %s failure" % evname)
       if evname == "GoingUp":
         for act in gu_script:
           if act[0] == "defer":
-            defs[act[1]] = core._get_go_up_deferral()
+            # the documented way to get a deferral is from the event
+            if act[1] % 2 == 0:
+              defs[act[1]] = e.get_deferral()
+              rep.count("deferrals_through_the_event")
+            else:
+              defs[act[1]] = core._get_go_up_deferral()
           elif act[0] == "release":
             d = defs.pop(act[1], None)
             if d is not None: d()
@@ -395,7 +517,11 @@ def run_life (case, rep):
         rep.count("lifecycles")
       elif op[0] == "quit":
         if not went_up: continue
-        core.quit()
+        try:
+          core.quit()
+        except RuntimeError as e:
+          if "scripted" not in str(e):
+            mon.fire("quit raises", traceback.format_exc()[-500:])
         rep.count("quits")
         quit_done = True
       # --- invariants after every step
@@ -510,9 +636,13 @@ def gen_rdv_random (rng, n):
         comps = rng.sample(NAMES, rng.randrange(1, 4))
         extra = rng.sample(NAMES, rng.randrange(0, 3))
         ops.append(["ltd", comps, extra, rng.random() < 0.8])
-      else:
+      elif r < 0.96:
         ops.append(["emit", rng.choice(NAMES)])
-    yield dict(kind="rdv", ops=ops)
+      else:
+        ops.append(["redeclare", rng.randrange(8)])
+    if rng.random() < 0.4:
+      ops.insert(rng.randrange(len(ops) + 1), ["goup"])
+    yield dict(kind="rdv", ops=ops, rv=rng.randrange(4))
 
 
 def gen_life (rng, n):
@@ -550,9 +680,17 @@ def gen_life (rng, n):
     if any(a == ["defer", 10] for a in gu) and ["release", 10] not in gu:
       seq.append(["release", 10])
     gu2 = rng.choice([None, [["defer", 20], ["release", 20]], [["defer", 20]]])
+    extra = {}
+    r = rng.random()
+    if r < 0.15: extra["on_GoingDown"] = [["quit"]]
+    elif r < 0.25: extra["on_Down"] = [["quit"]]
+    elif r < 0.35: extra["on_GoingDown"] = [["raise"]]
+    elif r < 0.40: extra["on_Up"] = [["quit"]]
     if gu2 and ["release", 20] not in gu2: seq.append(["release", 20])
     seq += [["quit"]] * rng.choice([0, 1, 1, 2, 3])
     d = dict(kind="life", ops=seq, goingup=gu)
+    d.update(extra)
+    if "on_Up" in extra and ["quit"] not in seq: seq.append(["quit"])
     if gu2: d["goingup2"] = gu2
     yield d
 
